@@ -110,6 +110,7 @@ func helperResultSrc(info *types.Info, root ast.Node, v types.Object, def ast.Ex
 }
 
 func ruleNUMCONV1(c *Ctx) {
+	numconvRangeUsesSource(c)
 	p := c.P
 	n := 0
 	okSource := func(info *types.Info, root ast.Node, e ast.Expr, depth int) bool { return false }
